@@ -113,6 +113,8 @@ def _val_of(e):
         return e.as_long()
     if z3.is_rational_value(e):
         return Fraction(e.numerator_as_long(), e.denominator_as_long())
+    if z3.is_bv_value(e):
+        return e.as_long()
     return None
 
 
@@ -695,7 +697,9 @@ class Engine:
     def __init__(self, seed: int = 0, check_timeout_ms: int = 1500,
                  oblige_timeout_ms: int = 60000, max_paths: int = 200000,
                  concrete: CounterModel | None = None,
-                 stop_on_failure: bool = True, tol: float = 0.0):
+                 stop_on_failure: bool = True, tol: float = 0.0,
+                 backend: str = 'z3'):
+        self.backend = backend
         self.seed = seed
         self.check_timeout_ms = check_timeout_ms
         self.oblige_timeout_ms = oblige_timeout_ms
@@ -703,6 +707,10 @@ class Engine:
         self.concrete = concrete
         self.stop_on_failure = stop_on_failure
         self.tol = tol
+        self.randomize = 0
+        self.as_float = False
+        self.used_values: dict = {}
+        self.concrete_notes: list = []
         self.sqrt_exact_max_size = 60
         self.sqrt_log: list = []
         self.stats = Stats()
@@ -730,27 +738,41 @@ class Engine:
     def autoname(self, prefix: str) -> str:
         return f'{prefix}!{next(self.auto)}'
 
-    def _cval(self, name, default):
+    def _cval(self, name, default, kind, data):
         assert self.concrete is not None
-        return self.concrete.values.get(name, default)
+        if self.randomize and data:
+            import random
+            rnd = random.Random(f'{self.seed}/{self.randomize}/{name}')
+            if kind == 'real':
+                v = Fraction(rnd.randint(-12, 12), 4)
+            elif kind == 'int':
+                v = rnd.randint(0, 4)
+            else:
+                v = rnd.random() < 0.5
+        else:
+            v = self.concrete.values.get(name, default)
+        self.used_values[name] = v
+        if kind == 'real' and self.as_float:
+            return float(v)
+        return v
 
-    def fresh_real(self, name: str):
+    def fresh_real(self, name: str, data: bool = False):
         if self.concrete is not None:
-            return self._cval(name, 0)
+            return self._cval(name, 0, 'real', data)
         s = z3.Real(name)
         self.symbols[name] = s
         return SymNum(s)
 
-    def fresh_int(self, name: str):
+    def fresh_int(self, name: str, data: bool = False):
         if self.concrete is not None:
-            return self._cval(name, 0)
+            return int(self._cval(name, 0, 'int', data))
         s = z3.Int(name)
         self.symbols[name] = s
         return SymNum(s)
 
-    def fresh_bool(self, name: str):
+    def fresh_bool(self, name: str, data: bool = False):
         if self.concrete is not None:
-            return bool(self._cval(name, False))
+            return bool(self._cval(name, False, 'bool', data))
         s = z3.Bool(name)
         self.symbols[name] = s
         return SymBool(s)
@@ -784,7 +806,22 @@ class Engine:
         self.solver.add(c)
         self.model = None
 
+    def _cvc(self, assertions, timeout_ms):
+        from vkit import cvc
+        consts = [c for c in self.symbols.values() if z3.is_bv(c) or z3.is_bool(c)]
+        st, vals, dt = cvc.check(assertions, consts, timeout_ms)
+        self.stats.queries += 1
+        self.stats.solver_s += dt
+        if _DEBUG:
+            print(f'[q cvc5 {dt:.2f}s {st}]', flush=True)
+        if st == 'sat':
+            return 'sat', cvc.ValModel(consts, vals or {})
+        return st, None
+
     def _check(self, extra=None):
+        if self.backend == 'cvc5':
+            return self._cvc(self.pc + ([extra] if extra is not None else []),
+                             self.check_timeout_ms)
         r = z3.unknown
         if not self.nl_mode:
             self.stats.queries += 1
@@ -997,6 +1034,8 @@ class Engine:
                 return True
             if self.concrete is not None:
                 self.concrete_failures.append(name)
+                if info:
+                    self.concrete_notes.append(f'{name}: {info}')
                 return False
             # concretely false on a feasible path: any model of pc is a witness
             self.flush_divisions()
@@ -1066,6 +1105,8 @@ class Engine:
         return lift(a) == lift(b)
 
     def _one_shot(self, assertions, timeout_ms):
+        if self.backend == 'cvc5':
+            return self._cvc(assertions, timeout_ms)
         s = z3.Solver()
         s.set('timeout', timeout_ms)
         s.set('random_seed', self.seed & 0x7fffffff)
